@@ -723,7 +723,15 @@ def obs_C04(g, out):
                         dev[k, j] = float(np.hypot(s.y[0, -1] - b[0], s.y[1, -1] - b[1]))
                 except Exception:  # noqa
                     pass
-        regs.append({"id": i, "dev": Q(dev, 1e-8)})
+        # the same radial line continues in the next radial segment: the points of the shared flux surface, as the outer neighbour holds
+        # them, are the points this region ends on (distance per poloidal index)
+        outer = t["meshconn"][i][1]
+        if outer is not None and outer >= 0:
+            Po = region_lattice(g, outer)
+            xj = np.hypot(Pm[-1, :, 0] - Po[0, :, 0], Pm[-1, :, 1] - Po[0, :, 1]) if Po.shape[1] == Pm.shape[1] else np.full(nj, np.nan)
+        else:
+            outer, xj = -1, np.zeros(0)
+        regs.append({"id": i, "dev": Q(dev, 1e-8), "outer": int(outer), "xj": Q(xj, 1e-8)})
         x0, x1, y0, y1 = t["rects"][i]
         for a in range(x1 - x0):
             for b in range(y1 - y0):
